@@ -78,6 +78,7 @@ Qed.
 
 Lemma nlen_hdr_bits aus : forall first, nlen (hdr_bits c first aus) = hrem first (nlen aus).
 Proof.
+  clear Hmax Hcfg.
   induction aus as [|a t IH]; intros first; cbn [hdr_bits nlen]; [reflexivity|].
   rewrite nlen_app, nlen_au_hdr, IH. unfold hrem.
   destruct (N.eqb_spec (N.succ (nlen t)) 0); [lia|]. replace (N.succ (nlen t) - 1) with (nlen t) by lia.
@@ -596,3 +597,614 @@ Proof.
 Qed.
 
 End D.
+
+(* ====================================================================================== *)
+(* ---------- round trip (C03) ---------- *)
+Section R.
+Variable c : cfg.
+Hypothesis Hcfg : cfg_ok c.
+Notation hw := (hw c).
+Notation hbits := (hbits c).
+
+Definition piece_ok (a : bytes) : Prop := 0 < nlen a /\ nlen a < 2 ^ sl c.
+Definition au_ok (a : bytes) : Prop := piece_ok a /\ nlen a <= cap.
+(* a frame the format can carry: at least one AU, every AU non-empty, its size representable in
+   SizeLength bits and at most MaxAccessUnitSize, and few enough AUs for the 16-bit AU-headers-length *)
+Definition valid_frame (f : list bytes) : Prop :=
+  f <> [] /\ Forall au_ok f /\ hbits (nlen f) < 65536.
+(* the ADTS sniff on the first AU ever returned does not fire: either an AU list was already
+   returned, or no AU of the frame starts with an ADTS sync word (raw AAC access units never do) *)
+Definition sniff_safe (d : dstate) (f : list bytes) : Prop :=
+  dadts d = false /\ (dfirst d = true \/ Forall (fun a => adts_like a = false) f).
+Definition ready (d : dstate) : Prop := clean d /\ dfirst d = true /\ dadts d = false.
+
+Lemma be16_val v : v < 65536 -> ((v / 256) mod 256) * 256 + v mod 256 = v.
+Proof.
+  intros H. assert (v / 256 < 256) by (apply N.div_lt_upper_bound; lia).
+  rewrite (N.mod_small (v / 256)) by assumption. pose proof (N.div_mod v 256). lia.
+Qed.
+
+Lemma read_bits_fieldN w v rest : 0 < w ->
+  read_bits (bits_be (N.to_nat w) v ++ rest) w = BOk (v mod 2 ^ w) rest.
+Proof.
+  intros Hw. pose proof (read_bits_field (N.to_nat w) v rest) as H. rewrite N2Nat.id in H. apply H. lia.
+Qed.
+
+Lemma hrem_succ first k : hrem c first (N.succ k) - sl c - (if first then il c else idl c) = hrem c false k.
+Proof.
+  unfold hrem. destruct (N.eqb_spec (N.succ k) 0); [lia|]. replace (N.succ k - 1) with k by lia.
+  assert (E : hw first = sl c + (if first then il c else idl c)) by (unfold Model.hw; destruct first; reflexivity).
+  destruct (N.eqb_spec k 0) as [->|Hk]; [lia|].
+  set (w := hw false) in *. replace (k * w) with (w + (k - 1) * w) by nia. lia.
+Qed.
+
+Lemma read_loop_ok aus : forall first done rest fuel,
+  Forall piece_ok aus -> nlen (hdr_bits c first aus ++ rest) < nlen fuel ->
+  read_loop c fuel (hdr_bits c first aus ++ rest) (hrem c first (nlen aus)) first
+            (done ++ nrep 0 (nlen aus)) (nlen done) = ROk (done ++ map (@nlen N) aus).
+Proof.
+  destruct Hcfg as (Hsl & _).
+  induction aus as [|a t IH]; intros first done rest fuel Hok Hf.
+  - cbn [nlen map nrep]. unfold hrem. cbn [N.eqb]. destruct fuel; reflexivity.
+  - inversion Hok as [|? ? [Ha1 Ha2] Ht]; subst.
+    destruct fuel as [|f0 fuel]; [cbn [nlen] in Hf; lia|].
+    cbn [read_loop].
+    assert (Hne : hrem c first (nlen (a :: t)) <> 0).
+    { unfold hrem. cbn [nlen]. destruct (N.eqb_spec (N.succ (nlen t)) 0); [lia|]. pose proof (hw_pos' c Hcfg first). lia. }
+    destruct (N.eqb_spec (hrem c first (nlen (a :: t))) 0); [contradiction|].
+    cbn [hdr_bits]. unfold au_hdr at 1. rewrite <- !app_assoc.
+    rewrite read_bits_fieldN by assumption. rewrite N.mod_small by assumption.
+    destruct (N.eqb_spec (nlen a) 0); [lia|].
+    set (w := if first then il c else idl c).
+    set (R := hdr_bits c false t ++ rest).
+    assert (Hidx : (if 0 <? w then read_bits (bits_be (N.to_nat w) 0 ++ R) w else BOk 0 (bits_be (N.to_nat w) 0 ++ R)) = BOk 0 R).
+    { destruct (N.ltb_spec 0 w) as [Hw|Hw].
+      - rewrite read_bits_fieldN by assumption. rewrite N.mod_0_l; [reflexivity|]. apply N.pow_nonzero. lia.
+      - replace w with 0 by lia. reflexivity. }
+    rewrite Hidx. cbn [N.eqb negb].
+    cbn [nlen]. rewrite nlen_app, nlen_nrep.
+    destruct (N.ltb_spec (nlen done) (nlen done + N.succ (nlen t))); [|lia].
+    rewrite nrep_succ, nset_app_here.
+    replace (done ++ nlen a :: nrep 0 (nlen t)) with ((done ++ [nlen a]) ++ nrep 0 (nlen t)) by (now rewrite <- app_assoc).
+    replace (nlen done + 1) with (nlen (done ++ [nlen a])) by (rewrite nlen_app; cbn [nlen]; lia).
+    fold w. rewrite hrem_succ. unfold R. rewrite IH; [|assumption|].
+    + cbn [map]. now rewrite <- app_assoc.
+    + cbn [nlen hdr_bits] in Hf. rewrite !nlen_app in Hf. rewrite nlen_app.
+      rewrite nlen_au_hdr in Hf. pose proof (hw_pos' c Hcfg first). lia.
+Qed.
+
+Lemma cntf_mul k : cntf c (k * hw false) = k.
+Proof.
+  unfold cntf. pose proof (hw_pos' c Hcfg false) as Hw. set (w := hw false) in *.
+  symmetry. apply (N.div_unique (k * w + w - 1) w k (w - 1)); lia.
+Qed.
+
+Lemma cnt_rem_hbits k : cnt_rem c (hbits k) true = k.
+Proof.
+  unfold cnt_rem, Model.hbits. destruct (N.eqb_spec k 0) as [->|Hk]; [reflexivity|].
+  pose proof (hw_pos' c Hcfg true). destruct (N.eqb_spec (hw true + (k - 1) * hw false) 0); [lia|].
+  set (X := (k - 1) * hw false) in *. replace (hw true + X - hw true) with X by lia.
+  unfold X. rewrite cntf_mul. lia.
+Qed.
+
+Lemma read_au_headers_ok B data : Forall piece_ok B ->
+  read_au_headers c (pack (hdr_bits c true B) ++ data) (hbits (nlen B)) = ROk (map (@nlen N) B).
+Proof.
+  intros Hok. unfold read_au_headers. rewrite (hcount_closed c Hcfg), cnt_rem_hbits.
+  rewrite bytes_bits_app. destruct (bytes_bits_pack (hdr_bits c true B)) as [pad Hpad]. rewrite Hpad, <- app_assoc.
+  pose proof (read_loop_ok B true [] (pad ++ bytes_bits data) (true :: hdr_bits c true B ++ pad ++ bytes_bits data) Hok) as H.
+  cbn [app nlen] in H. apply H. lia.
+Qed.
+
+Lemma split_aus_ok B : split_aus (map (@nlen N) B) (concat B) = Some B.
+Proof.
+  induction B as [|a t IH]; cbn [map concat split_aus]; [reflexivity|].
+  rewrite nlen_app. destruct (N.ltb_spec (nlen a + nlen (concat t)) (nlen a)); [lia|].
+  rewrite ntake_app_exact, ndrop_app_exact, IH. reflexivity.
+Qed.
+
+(* the payload written for a list of AUs sharing one AU-header section *)
+Definition pl (B : list bytes) : bytes := be16 (hbits (nlen B)) ++ pack (hdr_bits c true B) ++ concat B.
+
+Lemma frag_pl x : be16 (hw true) ++ pack (au_hdr c true (nlen x)) ++ x = pl [x].
+Proof.
+  unfold pl. cbn [nlen hdr_bits concat]. rewrite !app_nil_r. f_equal. f_equal.
+  unfold Model.hbits. cbn. lia.
+Qed.
+
+(* what Decode does once AU-headers and data are parsed *)
+Definition dec_body (d : dstate) (seq : N) (m : bool) (lens : list N) (data : bytes) : dstate * dres (list bytes) :=
+  if dsize d =? 0 then
+    let d0 := dreset d in
+    if m then
+      match split_aus lens data with
+      | None => (d0, DErr)
+      | Some aus => remove_adts d0 aus
+      end
+    else
+      match lens with
+      | [l0] =>
+          if nlen data <? l0 then (d0, DErr) else
+          (mkD (dfirst d) (dadts d) (dfrags d0 ++ [ntake l0 data]) l0 (seq_next seq), DMore)
+      | _ => (d0, DErr)
+      end
+  else
+    match lens with
+    | [l0] =>
+        if nlen data <? l0 then (dreset d, DErr) else
+        if negb (seq =? dnext d) then (dreset d, DErr) else
+        let size' := dsize d + l0 in
+        if cap <? size' then (dreset d, DErr) else
+        let d' := mkD (dfirst d) (dadts d) (dfrags d ++ [ntake l0 data]) size' (seq_next (dnext d)) in
+        if negb m then (d', DMore) else
+        match join (dfrags d') size' with
+        | Some au => remove_adts (dreset d') [au]
+        | None => (d', DPanic)
+        end
+    | _ => (dreset d, DErr)
+    end.
+
+Lemma dec_pl B d seq ts m : B <> [] -> Forall piece_ok B -> hbits (nlen B) < 65536 ->
+  dec c d (mkPkt seq ts m (pl B)) = dec_body d seq m (map (@nlen N) B) (concat B).
+Proof.
+  intros Hne Hok Hb. unfold dec, pl. cbn [ppayload be16 app].
+  rewrite be16_val by assumption.
+  assert (Hpos : hbits (nlen B) <> 0).
+  { unfold Model.hbits. destruct B; [contradiction|]. cbn [nlen]. destruct (N.eqb_spec (N.succ (nlen B)) 0); [lia|].
+    pose proof (hw_pos' c Hcfg true). lia. }
+  destruct (N.eqb_spec (hbits (nlen B)) 0); [contradiction|].
+  rewrite read_au_headers_ok by assumption.
+  assert (Hsub : nsub (pack (hdr_bits c true B) ++ concat B) (ceil8 (hbits (nlen B)))
+                   (nlen (pack (hdr_bits c true B) ++ concat B)) = Some (concat B)).
+  { rewrite hbits_hrem, <- nlen_hdr_bits, <- nlen_pack_ceil8. unfold nsub. rewrite nlen_app.
+    destruct (N.leb_spec (nlen (pack (hdr_bits c true B))) (nlen (pack (hdr_bits c true B)) + nlen (concat B))); [|lia].
+    rewrite N.leb_refl. cbn [andb]. rewrite ndrop_app_exact, ntake_all by lia. reflexivity. }
+  rewrite Hsub. reflexivity.
+Qed.
+
+Lemma remove_adts_safe d aus : sniff_safe d aus ->
+  remove_adts d aus = (mkD true false (dfrags d) (dsize d) (dnext d), DFrame aus).
+Proof.
+  intros [Ha Hs]. unfold remove_adts. destruct d as [fi ad fr sz nx]; cbn [dfirst dadts dfrags dsize dnext] in *. subst ad.
+  destruct fi; cbn [negb]; [reflexivity|]. destruct Hs as [Hs|Hs]; [discriminate|].
+  destruct aus as [|a [|a2 t]]; try reflexivity. inversion Hs as [|? ? Hal _]; subst. now rewrite Hal.
+Qed.
+
+(* one aggregated packet, from a clean decoder *)
+Lemma dec_agg B d seq ts : B <> [] -> Forall piece_ok B -> hbits (nlen B) < 65536 ->
+  clean d -> sniff_safe d B ->
+  exists d', dec c d (mkPkt seq ts true (pl B)) = (d', DFrame B) /\ ready d'.
+Proof.
+  intros Hne Hok Hb [Hcs Hcf] Hsn. rewrite dec_pl by assumption. unfold dec_body. rewrite Hcs. cbn [N.eqb].
+  rewrite split_aus_ok. rewrite remove_adts_safe.
+  - eexists. split; [reflexivity|]. unfold ready, clean; cbn. tauto.
+  - destruct Hsn as [H1 H2]. split; assumption.
+Qed.
+
+(* the remaining pieces of a fragmented AU *)
+Lemma dec_rest ts cs : forall d seq,
+  cs <> [] -> Forall piece_ok cs -> Inv d -> 0 < dsize d -> dnext d = seq ->
+  dsize d + nlen (concat cs) <= cap ->
+  dadts d = false -> (dfirst d = true \/ adts_like (concat (dfrags d) ++ concat cs) = false) ->
+  exists d', dec_run c d (frag_pkts c seq ts cs) =
+    (d', repeat DMore (length cs - 1) ++ [DFrame [concat (dfrags d) ++ concat cs]]) /\ ready d'.
+Proof.
+  induction cs as [|x t IH]; intros d seq Hne Hpos HI Hsz Hnext Hcap Had Hsn; [contradiction|].
+  inversion Hpos as [|? ? Hx Hpos']; subst.
+  cbn [frag_pkts dec_run]. rewrite frag_pl.
+  rewrite dec_pl; [|discriminate|constructor; [assumption|constructor]|].
+  2:{ unfold Model.hbits. cbn. destruct Hcfg as (? & ? & ? & ?). unfold Model.hw. lia. }
+  unfold dec_body. cbn [map concat]. rewrite app_nil_r.
+  destruct (N.eqb_spec (dsize d) 0); [lia|].
+  destruct (N.ltb_spec (nlen x) (nlen x)); [lia|].
+  rewrite N.eqb_refl. cbn [negb].
+  cbn [concat] in Hcap. rewrite nlen_app in Hcap.
+  destruct (N.ltb_spec cap (dsize d + nlen x)); [lia|].
+  rewrite ntake_all by lia.
+  destruct HI as (Hs & Hz & Hfr). destruct Hx as [Hx1 Hx2].
+  destruct t as [|x2 t2].
+  - cbn [negb dfrags].
+    replace (dsize d + nlen x) with (nlen (concat (dfrags d ++ [x]))) by (rewrite concat_snoc, nlen_app; lia).
+    rewrite join_exact. rewrite remove_adts_safe.
+    + cbn [frag_pkts dec_run length Nat.sub repeat app concat]. rewrite concat_snoc, app_nil_r.
+      eexists. split; [reflexivity|]. unfold ready, clean; cbn. tauto.
+    + split; [exact Had|]. cbn [dfirst dreset]. destruct Hsn as [Hsn|Hsn]; [now left|right].
+      constructor; [|constructor]. rewrite concat_snoc. cbn [concat] in Hsn. now rewrite app_nil_r in Hsn.
+  - cbn [negb].
+    set (d1 := mkD (dfirst d) (dadts d) (dfrags d ++ [x]) (dsize d + nlen x) (seq_next (dnext d))).
+    destruct (IH d1 (seq_next (dnext d))) as (d' & Hrun & Hrd).
+    + discriminate.
+    + assumption.
+    + unfold Inv, d1; cbn [dsize dfrags]. rewrite concat_snoc, nlen_app. splits; [lia|lia|].
+      apply Forall_app. split; [assumption|]. constructor; [lia|constructor].
+    + unfold d1; cbn [dsize]. lia.
+    + reflexivity.
+    + unfold d1; cbn [dsize]. lia.
+    + exact Had.
+    + unfold d1; cbn [dfirst dfrags]. destruct Hsn as [Hsn|Hsn]; [now left|right].
+      rewrite concat_snoc, <- app_assoc. exact Hsn.
+    + rewrite Hrun. eexists. split; [|exact Hrd].
+      unfold d1; cbn [dfrags]. rewrite concat_snoc, <- app_assoc.
+      cbn [length Nat.sub]. rewrite Nat.sub_0_r. cbn [concat]. reflexivity.
+Qed.
+
+(* all pieces of a fragmented AU, from a clean decoder *)
+Lemma dec_group ts cs : forall d seq,
+  cs <> [] -> Forall piece_ok cs -> clean d -> nlen (concat cs) <= cap ->
+  sniff_safe d [concat cs] ->
+  exists d', dec_run c d (frag_pkts c seq ts cs) =
+    (d', repeat DMore (length cs - 1) ++ [DFrame [concat cs]]) /\ ready d'.
+Proof.
+  intros d seq Hne Hpos [Hcs Hcf] Hcap [Had Hsn]. destruct cs as [|x t]; [contradiction|].
+  inversion Hpos as [|? ? Hx Hpos']; subst. destruct Hx as [Hx1 Hx2].
+  destruct t as [|x2 t2].
+  - (* a single piece: an aggregated packet of one AU *)
+    cbn [frag_pkts dec_run]. rewrite frag_pl.
+    destruct (dec_agg [x] d seq ts) as (d' & Hd & Hrd).
+    + discriminate.
+    + constructor; [split; assumption|constructor].
+    + unfold Model.hbits. cbn. destruct Hcfg as (? & ? & ? & ?). unfold Model.hw. lia.
+    + split; assumption.
+    + split; [assumption|]. destruct Hsn as [Hsn|Hsn]; [now left|right].
+      cbn [concat] in Hsn. rewrite app_nil_r in Hsn. exact Hsn.
+    + rewrite Hd. cbn [length Nat.sub repeat app concat]. rewrite app_nil_r. exists d'. split; [reflexivity|assumption].
+  - change (frag_pkts c seq ts (x :: x2 :: t2)) with
+      (mkPkt seq ts false (be16 (hw true) ++ pack (au_hdr c true (nlen x)) ++ x) :: frag_pkts c (seq_next seq) ts (x2 :: t2)).
+    cbn [dec_run]. rewrite frag_pl.
+    rewrite dec_pl; [|discriminate|constructor; [split; assumption|constructor]|].
+    2:{ unfold Model.hbits. cbn. destruct Hcfg as (? & ? & ? & ?). unfold Model.hw. lia. }
+    unfold dec_body. cbn [map concat]. rewrite app_nil_r. rewrite Hcs. cbn [N.eqb].
+    destruct (N.ltb_spec (nlen x) (nlen x)); [lia|]. rewrite ntake_all by lia.
+    cbn [dreset dfrags app].
+    set (d1 := mkD (dfirst d) (dadts d) [x] (nlen x) (seq_next seq)).
+    cbn [concat] in Hcap. rewrite nlen_app in Hcap.
+    destruct (dec_rest ts (x2 :: t2) d1 (seq_next seq)) as (d' & Hrun & Hrd).
+    + discriminate.
+    + assumption.
+    + unfold Inv, d1; cbn [dsize dfrags concat]. rewrite app_nil_r. splits; [reflexivity|lia|].
+      constructor; [lia|constructor].
+    + unfold d1; cbn [dsize]. lia.
+    + reflexivity.
+    + unfold d1; cbn [dsize]. cbn [concat]. lia.
+    + exact Had.
+    + unfold d1; cbn [dfirst dfrags]. destruct Hsn as [Hsn|Hsn]; [now left|right].
+      inversion Hsn as [|? ? Hal _]; subst. cbn [concat] in *. now rewrite app_nil_r in *.
+    + rewrite Hrun. exists d'. split; [|assumption].
+      unfold d1; cbn [dfrags concat length Nat.sub]. rewrite app_nil_r, Nat.sub_0_r. reflexivity.
+Qed.
+
+End R.
+
+(* ====================================================================================== *)
+Section R2.
+Variable c : cfg.
+Variable max : N.
+Hypothesis Hcfg : cfg_ok c.
+Hypothesis Hmax : minmax c <= max.
+Notation hw := (hw c).
+Notation hbits := (hbits c).
+Notation piece_ok := (piece_ok c).
+Notation au_ok := (au_ok c).
+Notation valid_frame := (valid_frame c).
+
+Lemma in_concat_len {A} (l : list (list A)) x : In x l -> nlen x <= nlen (concat l).
+Proof.
+  induction l as [|y t IH]; intros H; [contradiction|]. cbn [concat]. rewrite nlen_app.
+  destruct H as [->|H]; [lia|]. apply IH in H. lia.
+Qed.
+
+Lemma chunks_pieces_ok n a : 0 < n -> piece_ok a -> Forall piece_ok (chunks n a).
+Proof.
+  intros Hn [Ha1 Ha2]. rewrite Forall_forall. intros x Hx.
+  pose proof (chunks_bounds n a Hn) as Hb. rewrite Forall_forall in Hb. specialize (Hb x Hx).
+  pose proof (in_concat_len _ _ Hx) as Hl. rewrite chunks_concat in Hl by assumption.
+  split; lia.
+Qed.
+
+Definition batch_valid (B : list bytes) : Prop := B <> [] /\ Forall au_ok B /\ hbits (nlen B) < 65536.
+
+Lemma au_ok_piece B : Forall au_ok B -> Forall piece_ok B.
+Proof. apply Forall_impl. intros a [H _]. exact H. Qed.
+
+Lemma write_agg_pl B ts seq : write_agg c B ts seq = [mkPkt seq ts true (pl c B)].
+Proof. reflexivity. Qed.
+
+(* one batch, from a clean decoder: "more" on every packet but the last, the batch's AUs there *)
+Lemma dec_batch B d ts seq g : batch_valid B -> clean d -> sniff_safe d B ->
+  write_batch c max B ts seq = Some g ->
+  exists d', dec_run c d g = (d', repeat DMore (length g - 1) ++ [DFrame B]) /\ ready d'.
+Proof.
+  intros (Hne & Hok & Hb) Hcl Hsn Hw.
+  assert (Hagg : g = write_agg c B ts seq ->
+     exists d', dec_run c d g = (d', repeat DMore (length g - 1) ++ [DFrame B]) /\ ready d').
+  { intros ->. rewrite write_agg_pl.
+    destruct (dec_agg c Hcfg B d seq ts Hne (au_ok_piece B Hok) Hb Hcl Hsn) as (d' & Hd & Hrd).
+    cbn [dec_run]. rewrite Hd. cbn [length Nat.sub repeat app]. exists d'. split; [reflexivity|assumption]. }
+  destruct B as [|a [|a2 t]]; [contradiction| |].
+  - cbn [write_batch] in Hw. destruct (len_agg c [a] None <? max).
+    + injection Hw as <-. now apply Hagg.
+    + unfold write_frag in Hw. destruct (N.ltb_spec max (2 + ceil8 (hw true) + 1)); [discriminate|].
+      injection Hw as <-. change (sl c + il c) with (hw true). pose proof (avail_pos c max Hmax) as Hav.
+      inversion Hok as [|? ? [Hap Hac] _]; subst.
+      destruct (dec_group c Hcfg ts (chunks (max - 2 - ceil8 (hw true)) a) d seq) as (d' & Hrun & Hrd).
+      * rewrite chunks_cons; [discriminate|assumption|]. destruct Hap as [Hap _]. destruct a; [cbn in Hap; lia|discriminate].
+      * now apply chunks_pieces_ok.
+      * assumption.
+      * now rewrite chunks_concat.
+      * now rewrite chunks_concat.
+      * rewrite chunks_concat in Hrun by assumption. exists d'. split; [|assumption]. rewrite Hrun.
+        replace (length (frag_pkts c seq ts (chunks (max - 2 - ceil8 (hw true)) a)))
+          with (length (chunks (max - 2 - ceil8 (hw true)) a)); [reflexivity|].
+        pose proof (frag_pkts_len c seq ts (chunks (max - 2 - ceil8 (hw true)) a)) as HL. rewrite !nlen_length in HL. lia.
+  - cbn [write_batch] in Hw. injection Hw as <-. now apply Hagg.
+Qed.
+
+(* results expected for the groups of packets of a list of batches *)
+Fixpoint expect (gs : list (list packet)) (bs : list (list bytes)) : list (dres (list bytes)) :=
+  match gs, bs with
+  | g :: gt, b :: bt => repeat DMore (length g - 1) ++ [DFrame b] ++ expect gt bt
+  | _, _ => []
+  end.
+
+Lemma dec_run_app ps1 : forall ps2 d d1 r1, dec_run c d ps1 = (d1, r1) -> ~ In DPanic r1 ->
+  dec_run c d (ps1 ++ ps2) = (let '(d2, r2) := dec_run c d1 ps2 in (d2, r1 ++ r2)).
+Proof.
+  induction ps1 as [|p t IH]; intros ps2 d d1 r1 H Hnp; cbn [dec_run app] in *.
+  - injection H as <- <-. destruct (dec_run c d ps2); reflexivity.
+  - destruct (dec c d p) as [d' r].
+    destruct r; try (destruct (dec_run c d' t) as [d'' rs] eqn:E; injection H as <- <-;
+      rewrite (IH ps2 d' d'' rs E) by (intros Hin; apply Hnp; now right);
+      destruct (dec_run c d'' ps2); reflexivity).
+    injection H as <- <-. exfalso. apply Hnp. now left.
+Qed.
+
+Lemma no_panic_expected n (B : list bytes) : ~ In DPanic (repeat (@DMore (list bytes)) n ++ [DFrame B]).
+Proof.
+  intros H. apply in_app_or in H. destruct H as [H|[H|[]]]; [|discriminate].
+  apply repeat_spec in H. discriminate.
+Qed.
+
+Lemma sniff_safe_app d b rest : sniff_safe d (b ++ rest) -> sniff_safe d b.
+Proof. intros [H1 [H2|H2]]; split; auto. right. apply Forall_app in H2. tauto. Qed.
+Lemma ready_sniff d X : ready d -> sniff_safe d X.
+Proof. intros (_ & H1 & H2). split; auto. Qed.
+
+Lemma dec_groups bs : forall gs ts seq d, enc_groups c max bs ts seq = Some gs ->
+  Forall batch_valid bs -> clean d -> sniff_safe d (concat bs) ->
+  exists d', dec_run c d (concat gs) = (d', expect gs bs) /\ clean d' /\
+             (bs <> [] -> ready d') /\ (bs = [] -> d' = d).
+Proof.
+  induction bs as [|b t IH]; intros gs ts seq d Hg Hv Hcl Hsn; cbn [enc_groups] in Hg.
+  - injection Hg as <-. exists d. cbn. splits; auto. intros H; contradiction.
+  - inversion Hv as [|? ? Hb Ht]; subst.
+    destruct (write_batch c max b ts seq) as [g|] eqn:Ew; [|discriminate].
+    destruct (enc_groups c max t _ _) as [gt|] eqn:Eg; [|discriminate]. cbn [option_map] in Hg. injection Hg as <-.
+    cbn [concat] in Hsn.
+    destruct (dec_batch b d ts seq g Hb Hcl (sniff_safe_app d b _ Hsn) Ew) as (d1 & Hr1 & Hrd1).
+    destruct (IH gt _ _ d1 Eg Ht (proj1 Hrd1) (ready_sniff d1 _ Hrd1)) as (d2 & Hr2 & Hc2 & Hrd2 & Heq2).
+    cbn [concat expect]. rewrite (dec_run_app g (concat gt) d d1 _ Hr1 (no_panic_expected _ _)), Hr2.
+    exists d2. splits.
+    + now rewrite <- app_assoc.
+    + assumption.
+    + intros _. destruct t as [|b2 t2]; [rewrite (Heq2 eq_refl); assumption|apply Hrd2; discriminate].
+    + discriminate.
+Qed.
+
+Lemma hbits_mono a b : a <= b -> hbits a <= hbits b.
+Proof.
+  intros H. unfold Model.hbits. destruct (N.eqb_spec a 0); destruct (N.eqb_spec b 0); try lia; try apply N.le_0_l.
+  assert ((a - 1) * hw false <= (b - 1) * hw false) by (apply N.mul_le_mono_r; lia). lia.
+Qed.
+
+Lemma nlen_concat_in {A} (l : list (list A)) x : In x l -> nlen x <= nlen (concat l).
+Proof. apply in_concat_len. Qed.
+
+Lemma batches_valid f : valid_frame f -> Forall batch_valid (batch_loop c max f []).
+Proof.
+  intros (Hne & Hok & Hb). rewrite Forall_forall. intros B HB.
+  pose proof (batch_loop_concat c max f []) as Hcat. cbn [app] in Hcat.
+  pose proof (batch_loop_nonempty c max f [] (or_intror Hne)) as Hnn. rewrite Forall_forall in Hnn.
+  unfold batch_valid. splits.
+  - now apply Hnn.
+  - rewrite Forall_forall in *. intros a Ha. apply Hok. rewrite <- Hcat. apply in_concat. exists B. split; assumption.
+  - eapply N.le_lt_trans; [|exact Hb]. apply hbits_mono. rewrite <- Hcat.
+    clear - HB. induction (batch_loop c max f []) as [|y t IH]; [contradiction|]. cbn [concat]. rewrite nlen_app.
+    destruct HB as [->|HB]; [lia|]. apply IH in HB. lia.
+Qed.
+
+Lemma valid_nonempty f : valid_frame f -> Forall (fun a : bytes => a <> []) f.
+Proof.
+  intros (_ & Hok & _). eapply Forall_impl; [|exact Hok]. intros a [[Ha _] _] ->. cbn in Ha. lia.
+Qed.
+
+(* C03, one frame: the packets Encode produces for a valid frame, fed in order to a clean decoder
+   for which the ADTS sniff is harmless, give "more" inside every fragmented AU and the AUs of each
+   batch at the packet completing it; the decoder ends clean, with the sniff behind it *)
+Theorem roundtrip seq f d : valid_frame f -> seq < 65536 -> clean d -> sniff_safe d f ->
+  exists gs d', enc c max seq f = Some (concat gs, seq_add seq (nlen (concat gs))) /\
+    dec_run c d (concat gs) = (d', expect gs (batch_loop c max f [])) /\ ready d' /\
+    concat (batch_loop c max f []) = f /\ length gs = length (batch_loop c max f []).
+Proof.
+  intros Hv Hs Hcl Hsn.
+  destruct (enc_wellformed c max Hmax seq f Hs (valid_nonempty f Hv)) as (gs & Hg & He & _ & _).
+  pose proof (batch_loop_concat c max f []) as Hcat. cbn [app] in Hcat.
+  destruct (dec_groups _ gs 0 seq d Hg (batches_valid f Hv) Hcl) as (d' & Hr & Hc & Hrd & _).
+  - now rewrite Hcat.
+  - exists gs, d'. splits; try assumption.
+    + apply Hrd. intros E. rewrite E in Hcat. cbn in Hcat. destruct Hv as (Hne & _). congruence.
+    + clear - Hg. revert gs Hg. generalize 0 at 1. generalize seq.
+      induction (batch_loop c max f []) as [|b t IH]; intros s ts gs Hg; cbn [enc_groups] in Hg.
+      * injection Hg as <-. reflexivity.
+      * destruct (write_batch c max b ts s); [|discriminate]. destruct (enc_groups c max t _ _) eqn:E; [|discriminate].
+        cbn [option_map] in Hg. injection Hg as <-. cbn [length]. f_equal. eapply IH. exact E.
+Qed.
+
+(* what the caller collects: the concatenation of the per-packet results *)
+Definition frames_of (rs : list (dres (list bytes))) : list bytes :=
+  flat_map (fun r => match r with DFrame x => x | _ => [] end) rs.
+Definition progress (r : dres (list bytes)) : Prop := r = DMore \/ exists x, r = DFrame x.
+
+Lemma frames_of_app a b : frames_of (a ++ b) = frames_of a ++ frames_of b.
+Proof. unfold frames_of. apply flat_map_app. Qed.
+Lemma frames_of_more n : frames_of (repeat DMore n) = [].
+Proof. induction n as [|k IH]; [reflexivity|]. cbn [repeat]. exact IH. Qed.
+
+Lemma expect_frames gs : forall bs, length gs = length bs ->
+  frames_of (expect gs bs) = concat bs /\ Forall progress (expect gs bs).
+Proof.
+  induction gs as [|g gt IH]; intros [|b bt] H; cbn [length] in H; try discriminate.
+  - split; [reflexivity|constructor].
+  - cbn [expect concat]. destruct (IH bt) as [H1 H2]; [lia|].
+    rewrite !frames_of_app, frames_of_more, H1. cbn [app]. split; [unfold frames_of; cbn; now rewrite app_nil_r|].
+    apply Forall_app. split; [|constructor; [right; eexists; reflexivity|assumption]].
+    apply Forall_forall. intros r Hr. apply repeat_spec in Hr. now left.
+Qed.
+
+(* C03 as the caller sees it: no error, no panic, and the AUs returned, concatenated in packet
+   order, are exactly the frame's AUs (same units, same bytes) *)
+Theorem roundtrip_frames seq f d : valid_frame f -> seq < 65536 -> clean d -> sniff_safe d f ->
+  exists ps seq' d' rs, enc c max seq f = Some (ps, seq') /\ dec_run c d ps = (d', rs) /\
+    frames_of rs = f /\ Forall progress rs /\ ready d'.
+Proof.
+  intros Hv Hs Hcl Hsn. destruct (roundtrip seq f d Hv Hs Hcl Hsn) as (gs & d' & He & Hr & Hrd & Hcat & Hlen).
+  destruct (expect_frames gs _ Hlen) as [H1 H2].
+  exists (concat gs), (seq_add seq (nlen (concat gs))), d', (expect gs (batch_loop c max f [])).
+  splits; try assumption. now rewrite H1.
+Qed.
+
+(* consecutive frames through one encoder/decoder pair: only the very first frame is exposed to the sniff *)
+Theorem roundtrip_seq fs : Forall valid_frame fs -> forall seq d, seq < 65536 -> clean d ->
+  dadts d = false -> (dfirst d = true \/ match fs with f :: _ => Forall (fun a => adts_like a = false) f | [] => True end) ->
+  exists pss d' rs, enc_many c max seq fs = Some pss /\ dec_run c d (concat pss) = (d', rs) /\
+    frames_of rs = concat fs /\ Forall progress rs /\ clean d' /\ dadts d' = false.
+Proof.
+  induction 1 as [|f t Hf Ht IH]; intros seq d Hs Hcl Had Hsn.
+  - exists [], d, []. cbn. splits; auto; constructor.
+  - destruct (roundtrip_frames seq f d Hf Hs Hcl) as (ps & seq' & d1 & r1 & He & Hr1 & Hf1 & Hp1 & Hrd1).
+    { split; assumption. }
+    assert (Hs' : seq' < 65536).
+    { destruct (roundtrip seq f d Hf Hs Hcl (conj Had Hsn)) as (gs & ? & He' & _). rewrite He in He'. injection He' as _ ->. apply seq_add_lt. }
+    destruct Hrd1 as (Hc1 & Hfi1 & Ha1).
+    destruct (IH seq' d1 Hs' Hc1 Ha1 (or_introl Hfi1)) as (pss & d2 & r2 & Hem & Hr2 & Hf2 & Hp2 & Hc2 & Ha2).
+    exists (ps :: pss), d2, (r1 ++ r2). cbn [enc_many]. rewrite He, Hem. cbn [option_map concat]. splits; try assumption.
+    + reflexivity.
+    + rewrite (dec_run_app ps (concat pss) d d1 r1 Hr1), Hr2; [reflexivity|].
+      intros Hin. rewrite Forall_forall in Hp1. destruct (Hp1 _ Hin) as [E|[x E]]; discriminate.
+    + now rewrite frames_of_app, Hf1, Hf2.
+    + apply Forall_app. split; assumption.
+Qed.
+
+(* ---------- resynchronisation (C07) ---------- *)
+(* a packet with the marker set leaves the decoder without pending fragments, whatever its state *)
+Lemma marker_cleans d p : Inv d -> pmarker p = true -> clean (fst (dec c d p)).
+Proof.
+  intros HI Hm.
+  pose proof (dec_step c Hcfg (N.max (psz p) (dsize d)) d p HI) as Hst.
+  assert (Hrm : forall d0 aus, clean d0 -> clean (fst (remove_adts d0 aus))).
+  { intros d0 aus [H1 H2]. pose proof (remove_adts_spec d0 aus) as H. destruct (remove_adts d0 aus) as [d' r].
+    destruct H as (E1 & E2 & _). cbn [fst]. split; congruence. }
+  unfold dec in *. rewrite Hm in *.
+  destruct (ppayload p) as [|b0 [|b1 payload]]; try apply clean_reset.
+  destruct (b0 * 256 + b1 =? 0); [apply clean_reset|].
+  destruct (read_au_headers c payload (b0 * 256 + b1)) as [lens| |]; [|apply clean_reset|].
+  2:{ destruct Hst as (_ & _ & Hst & _); [lia|lia|congruence]. }
+  destruct (nsub payload _ _) as [data|].
+  2:{ destruct Hst as (_ & _ & Hst & _); [lia|lia|congruence]. }
+  destruct (dsize d =? 0).
+  - destruct (split_aus lens data); [|apply clean_reset]. apply Hrm. apply clean_reset.
+  - destruct lens as [|l0 [|l1 lt]]; try apply clean_reset.
+    destruct (nlen data <? l0); [apply clean_reset|].
+    destruct (pseq p =? dnext d); cbn [negb] in *; [|apply clean_reset].
+    destruct (cap <? dsize d + l0); [apply clean_reset|].
+    destruct (join _ _).
+    + apply Hrm. apply clean_reset.
+    + destruct Hst as (_ & _ & Hst & _); [lia|lia|congruence].
+Qed.
+
+(* any packet list whose last packet carries the marker absorbs earlier damage *)
+Lemma absorb ps : forall d p, Inv d -> pmarker p = true -> clean (fst (dec_run c d (ps ++ [p]))).
+Proof.
+  induction ps as [|q t IH]; intros d p HI Hm; cbn [app dec_run].
+  - pose proof (marker_cleans d p HI Hm) as Hc. destruct (dec c d p) as [d' r]. cbn [fst] in Hc.
+    destruct r; cbn [dec_run fst]; exact Hc.
+  - pose proof (dec_step c Hcfg (N.max (psz q) (dsize d)) d q HI) as Hst.
+    destruct (dec c d q) as [d' r]. destruct Hst as (HI' & _ & Hnp & _); [lia|lia|].
+    specialize (IH d' p HI' Hm).
+    destruct r; try (destruct (dec_run c d' (t ++ [p])) as [d'' rs]; exact IH). congruence.
+Qed.
+
+(* the decoder has returned an AU list before and did not take it for ADTS: stable for ever *)
+Definition settled (d : dstate) : Prop := dfirst d = true /\ dadts d = false.
+
+Lemma remove_adts_settled d aus : settled d -> remove_adts d aus = (d, DFrame aus).
+Proof. intros [H1 H2]. unfold remove_adts. rewrite H1, H2. reflexivity. Qed.
+
+Lemma dec_settled d p : settled d -> settled (fst (dec c d p)).
+Proof.
+  intros Hs. assert (Hr : settled (dreset d)) by exact Hs.
+  unfold dec. destruct (ppayload p) as [|b0 [|b1 payload]]; try exact Hr.
+  destruct (b0 * 256 + b1 =? 0); [exact Hr|].
+  destruct (read_au_headers c payload (b0 * 256 + b1)) as [lens| |]; [|exact Hr|exact Hs].
+  destruct (nsub payload _ _) as [data|]; [|exact Hs].
+  destruct (dsize d =? 0).
+  - destruct (pmarker p).
+    + destruct (split_aus lens data); [|exact Hr]. now rewrite remove_adts_settled.
+    + destruct lens as [|l0 [|l1 lt]]; try exact Hr. destruct (nlen data <? l0); [exact Hr|exact Hs].
+  - destruct lens as [|l0 [|l1 lt]]; try exact Hr.
+    destruct (nlen data <? l0); [exact Hr|].
+    destruct (negb (pseq p =? dnext d)); [exact Hr|].
+    destruct (cap <? dsize d + l0); [exact Hr|].
+    destruct (negb (pmarker p)); [exact Hs|].
+    destruct (join _ _); [|exact Hs]. now rewrite remove_adts_settled.
+Qed.
+
+Lemma dec_run_settled hist : forall d, settled d -> settled (fst (dec_run c d hist)).
+Proof.
+  induction hist as [|p t IH]; intros d Hs; cbn [dec_run]; [exact Hs|].
+  pose proof (dec_settled d p Hs) as H1. destruct (dec c d p) as [d' r]. cbn [fst] in H1.
+  specialize (IH d' H1). destruct r; try (destruct (dec_run c d' t); exact IH). exact H1.
+Qed.
+
+Lemma enc_last_marker seq f : valid_frame f -> seq < 65536 ->
+  exists gs ps p, enc c max seq f = Some (concat gs, seq_add seq (nlen (concat gs))) /\
+    concat gs = ps ++ [p] /\ pmarker p = true.
+Proof.
+  intros Hv Hs.
+  destruct (enc_wellformed c max Hmax seq f Hs (valid_nonempty f Hv)) as (gs & Hg & He & Hall & _).
+  assert (Hgs : gs <> []).
+  { intros ->. destruct f as [|a t]; [destruct Hv as (Hv & _); contradiction|].
+    pose proof (batch_loop_nonempty c max (a :: t) [] (or_intror ltac:(discriminate))) as Hn.
+    destruct (batch_loop c max (a :: t) []) as [|b bt]; [|cbn [enc_groups] in Hg].
+    - pose proof (batch_loop_concat c max (a :: t) []) as Hc. destruct (batch_loop c max (a :: t) []); cbn in Hc; discriminate.
+    - destruct (write_batch c max b 0 seq); [|discriminate]. destruct (enc_groups c max bt _ _); discriminate. }
+  destruct (exists_last Hgs) as (gs' & g & ->).
+  apply Forall_app in Hall. destruct Hall as [_ Hg']. inversion Hg' as [|? ? (Hgne & Hgm & _) _]; subst.
+  destruct (exists_last Hgne) as (g' & p & ->).
+  exists (gs' ++ [g' ++ [p]]), (concat gs' ++ g'), p. splits; [assumption| |].
+  - rewrite concat_snoc, app_assoc. reflexivity.
+  - rewrite (Hgm (nlen g') p); [|apply nnth_app_last]. rewrite nlen_app. cbn [nlen]. apply N.eqb_eq. lia.
+Qed.
+
+(* C07 (partial: for a decoder that is past the ADTS sniff).  After ANY packet history (loss,
+   duplication, reordering, foreign packets) one intact frame f1 is enough: the next intact frame f2
+   comes out exactly as in the loss-free case. *)
+Theorem resync hist f1 f2 s1 s2 :
+  valid_frame f1 -> valid_frame f2 -> s1 < 65536 -> s2 < 65536 ->
+  let d0 := fst (dec_run c dinit hist) in
+  settled d0 ->
+  exists ps1 ps2 q1 q2 d2 rs, enc c max s1 f1 = Some (ps1, q1) /\ enc c max s2 f2 = Some (ps2, q2) /\
+    dec_run c (fst (dec_run c d0 ps1)) ps2 = (d2, rs) /\
+    frames_of rs = f2 /\ Forall progress rs /\ ready d2.
+Proof.
+  intros Hv1 Hv2 Hs1 Hs2 d0 Hset.
+  destruct (enc_last_marker s1 f1 Hv1 Hs1) as (gs1 & ps & p & He1 & Hcat & Hm).
+  assert (HI0 : Inv d0) by (apply (dec_run_inv c Hcfg hist dinit inv_init)).
+  pose proof (absorb ps d0 p HI0 Hm) as Hcl. rewrite <- Hcat in Hcl.
+  pose proof (dec_run_settled (concat gs1) d0 Hset) as Hset1.
+  set (d1 := fst (dec_run c d0 (concat gs1))) in *.
+  destruct (roundtrip_frames s2 f2 d1 Hv2 Hs2 Hcl) as (ps2 & q2 & d2 & rs & He2 & Hr & Hf & Hp & Hrd).
+  { destruct Hset1 as [H1 H2]. split; [assumption|now left]. }
+  exists (concat gs1), ps2, (seq_add s1 (nlen (concat gs1))), q2, d2, rs. splits; assumption.
+Qed.
+
+End R2.
